@@ -922,9 +922,11 @@ def c20_script(rng, sizes, rules, rrule, cases):
     S = Script()
     d = S.dom(sizes)
     fa = S.forest(d, 'mtb_s', rules[0])
-    fr = S.forest(d, 'mtb_s', rules[1])
+    fr = fa         # the saturation operation requires one forest for the initial set and the result
+    fother = S.forest(d, 'mtb_s', rules[1])
     fm = S.forest(d, 'mtb_r', rrule)
     a, r, r2 = S.new(fa), S.new(fr), S.new(fr)
+    rother = S.new(fother)
     union = S.new(fm)
     evs = [S.new(fm) for _ in range(6)]
     for (T, events, mode, split) in cases:
@@ -938,6 +940,9 @@ def c20_script(rng, sizes, rules, rrule, cases):
             S.add('bin UNION %d %d %d' % (union, union, evs[i]))
         S.add('bin REACH_NOFS_F %d %d %d' % (r2, a, union))
         S.add('obs %d' % a)
+    # documented restriction: a result in another forest is refused
+    S.add('sat %d %d BYEV 0 1 %d' % (rother, a, evs[0]))
+    S.add('obs %d' % a)
     return S.text()
 
 
